@@ -9,13 +9,15 @@ git -C /repo worktree add -q --detach $MX/repo HEAD
 rsync -a --exclude target --exclude replays --exclude .git /verif/ $MX/verif/
 sed -i "s|path = \"/repo\"|path = \"$MX/repo\"|" $MX/verif/mc/Cargo.toml
 OUT=/verif/seeded/matrix.tsv
-CHECKS="C01 C02 C03 C04 C05 C06 C07 C08 C09 C10 C11 C12 C13 C14 C15 C16 C17 C18 C19"
+ALL="C01 C02 C03 C04 C05 C06 C07 C08 C09 C10 C11 C12 C13 C14 C15 C16 C17 C18"
 [ -f $OUT ] || echo -e "mutant\tdetected_by\tnot_detected_by" > $OUT
 for md in "$@"; do
   name=$(basename $md)
   grep -q "^$name	" $OUT && continue
   ( cd $MX/repo && git checkout -q -- . && git apply $md/patch.diff ) || { echo -e "$name\tPATCH-FAILED\t" >> $OUT; continue; }
   det=""; ndet=""
+  # C19 (the f32 build) repeats the C01-C07 spaces: it is run only for the changes written against C19
+  CHECKS="$ALL"; case "$name" in C19-*) CHECKS="$ALL C19" ;; esac
   for c in $CHECKS; do
     nice -n 10 $MX/verif/check $c --tier quick > $MX/out.log 2>&1; rc=$?
     if [ $rc -eq 1 ]; then det="$det $c"; elif [ $rc -eq 0 ]; then ndet="$ndet $c"; else ndet="$ndet $c(rc=$rc)"; fi
